@@ -3,14 +3,15 @@ C16 — "Every documented annotation form is accepted with its structure intact"
 
 Model: Model/Annot.lean (lexer, type grammar, statement parsers, printer), tied to the code by comparing
 the real ParserLine / TypeConvertStr with the model on grammar-derived lines and their corruptions.
-Proved here, for ALL types of the canonical fragment (names, `table`, `table<K, V>`, any number of array
-suffixes, unions of those, nested to any depth) and ALL token contexts:
+Proved here, for ALL types of the canonical fragment (names, `table`, `table<K, V>`, parenthesised unions, any
+number of array suffixes, unions of those, nested to any depth) and ALL token contexts:
  * `roundtrip`: reading the tokens of the printed form gives back exactly the same type and leaves the
    following tokens untouched, with the fuel the model's `parseLine` provides being enough
    (`cost_le_tokens`);
  * `roundtrip_fails_*`: outside the fragment the property is false of the model (and of the code):
    a fun type prints as `function(…)`, which reads back as the name `function` (class K2); a quoted
-   constant loses its quotes (K3); a parenthesised union under `[]` loses the parentheses (K4).
+   constant loses its quotes (K3).  (A parenthesised union under `[]` used to lose its parentheses — finding K4,
+   repaired: `paren_union_printed`; parenthesised unions of two or more types are inside the fragment.)
    (`T[][]` used to be cut after the first suffix — finding K1, repaired: `arrSuffix_arrs`, `nested_array_read`.)
 -/
 import LuaHelper.Model.Annot
@@ -87,6 +88,15 @@ theorem pBase_table (f : Nat) (k v : Ty) (rest : List Tok)
   rw [this, pBase.eq_4, e1]
   simp only [e2]
 
+/-- the `( … )` case of pBase, given that the union inside reads back -/
+theorem pBase_paren (g : Nat) (t : Ty) (l : List Ty) (rest : List Tok)
+    (e : pOneList g (toksS t ++ toksL l ++ (.rparen :: rest)) = some (t :: l, .rparen :: rest)) :
+    pBase (g + 2) (.lparen :: (toksS t ++ toksL l) ++ [.rparen] ++ rest) = some (.multi (t :: l), rest) := by
+  have : .lparen :: (toksS t ++ toksL l) ++ [.rparen] ++ rest = .lparen :: (toksS t ++ toksL l ++ (.rparen :: rest)) := by
+    simp
+  rw [this, pBase.eq_2]
+  simp only [pOne, e]
+
 mutual
 theorem rtB : (b : Ty) → canonB b = true → (f : Nat) → costB b ≤ f → (rest : List Tok) →
     rest.head? ≠ some .lt → pBase f (toksB b ++ rest) = some (b, rest)
@@ -108,7 +118,15 @@ theorem rtB : (b : Ty) → canonB b = true → (f : Nat) → costB b ≤ f → (
       have e1 := rtM k hc.1 f hk (.comma :: (toksM v ++ (.gt :: rest))) (by simp [Stops])
       have e2 := rtM v hc.2 f hv (.gt :: rest) (by simp [Stops])
       exact pBase_table f k v rest e1 e2
-  | .multi _, hc, _, _, _, _ => by simp [canonB] at hc
+  | .multi (t :: t2 :: l), hc, f, hf, rest, _ => by
+    simp only [canonB, Bool.and_eq_true] at hc
+    have hf' : max (costS t) (costL (t2 :: l)) + 3 ≤ f := by simpa [costB] using hf
+    obtain ⟨g, rfl⟩ : ∃ g, f = g + 2 := ⟨f - 2, by omega⟩
+    have hl : costL (t :: t2 :: l) ≤ g := by simp [costL] at hf' ⊢; omega
+    have e := rtL t (t2 :: l) hc.1 hc.2 g hl (.rparen :: rest) (by simp [Stops])
+    simpa [toksB] using pBase_paren g t (t2 :: l) rest e
+  | .multi [], hc, _, _, _, _ => by simp [canonB] at hc
+  | .multi [_], hc, _, _, _, _ => by simp [canonB] at hc
   | .array _, hc, _, _, _, _ => by simp [canonB] at hc
   | .func _ _ _ _, hc, _, _, _, _ => by simp [canonB] at hc
   | .const _ _, hc, _, _, _, _ => by simp [canonB] at hc
@@ -155,7 +173,20 @@ theorem rtS : (s : Ty) → canonS s = true → (f : Nat) → costS s ≤ f → (
       have e := pBase_table g k v (arrs n ++ rest) e1 e2
       simp only [toksS, pSingle, e]
       exact arrSuffix_arrs n _ rest hlb
-  | .multi _, hc, _, _, _, _, _, _ => by simp [canonS, canonB] at hc
+  | .multi (t :: t2 :: l), hc, f, hf, n, rest, hlt, hlb => by
+    have hc' : canonS t = true ∧ canonL (t2 :: l) = true := by simpa [canonS, canonB] using hc
+    have hf' : max (costS t) (costL (t2 :: l)) + 4 ≤ f := by simpa [costS, costB] using hf
+    obtain ⟨g, rfl⟩ : ∃ g, f = g + 3 := ⟨f - 3, by omega⟩
+    have hl : costL (t :: t2 :: l) ≤ g := by simp [costL] at hf' ⊢; omega
+    have e0 := rtL t (t2 :: l) hc'.1 hc'.2 g hl (.rparen :: (arrs n ++ rest)) (by simp [Stops])
+    have e := pBase_paren g t (t2 :: l) (arrs n ++ rest) e0
+    have : toksS (.multi (t :: t2 :: l)) ++ (arrs n ++ rest) =
+        .lparen :: (toksS t ++ toksL (t2 :: l)) ++ [.rparen] ++ (arrs n ++ rest) := by simp [toksS, toksB]
+    rw [this]
+    simp only [pSingle, e]
+    exact arrSuffix_arrs n _ rest hlb
+  | .multi [], hc, _, _, _, _, _, _ => by simp [canonS, canonB] at hc
+  | .multi [_], hc, _, _, _, _, _, _ => by simp [canonS, canonB] at hc
   | .func _ _ _ _, hc, _, _, _, _, _, _ => by simp [canonS, canonB] at hc
   | .const _ _, hc, _, _, _, _, _, _ => by simp [canonS, canonB] at hc
 termination_by s => sizeOf s
@@ -229,7 +260,14 @@ theorem costB_le : (b : Ty) → canonB b = true → costB b ≤ 2 * (toksB b).le
     have h2 := costM_le v hc.2
     simp [costB, toksB]
     omega
-  | .multi _, hc => by simp [canonB] at hc
+  | .multi (t :: t2 :: l), hc => by
+    simp only [canonB, Bool.and_eq_true] at hc
+    have h1 := costS_le t hc.1
+    have h2 := costL_le (t2 :: l) hc.2
+    simp [costB, toksB]
+    omega
+  | .multi [], hc => by simp [canonB] at hc
+  | .multi [_], hc => by simp [canonB] at hc
   | .array _, hc => by simp [canonB] at hc
   | .func _ _ _ _, hc => by simp [canonB] at hc
   | .const _ _, hc => by simp [canonB] at hc
@@ -248,7 +286,14 @@ theorem costS_le : (s : Ty) → canonS s = true → costS s ≤ 2 * (toksS s).le
     have h2 := costM_le v hc'.2
     simp [costS, costB, toksS, toksB]
     omega
-  | .multi _, hc => by simp [canonS, canonB] at hc
+  | .multi (t :: t2 :: l), hc => by
+    have hc' : canonS t = true ∧ canonL (t2 :: l) = true := by simpa [canonS, canonB] using hc
+    have h1 := costS_le t hc'.1
+    have h2 := costL_le (t2 :: l) hc'.2
+    simp [costS, costB, toksS, toksB]
+    omega
+  | .multi [], hc => by simp [canonS, canonB] at hc
+  | .multi [_], hc => by simp [canonS, canonB] at hc
   | .func _ _ _ _, hc => by simp [canonS, canonB] at hc
   | .const _ _, hc => by simp [canonS, canonB] at hc
 termination_by s => sizeOf s
@@ -311,12 +356,25 @@ theorem roundtrip_fails_const :
   decide +kernel
 #print axioms roundtrip_fails_const
 
-/-- K4: `(A|B)[]` is printed without parentheses and reads back as `A | (B[])` -/
-theorem roundtrip_fails_paren :
-    (parseLine (strB "type (A|B)[]")).map (fun st => match st with | .type _ _ [.multi [.array (.multi l)]] _ => l.length | _ => 0) = some 2 ∧
-    (parseLine (strB "type A | B[]")).map (fun st => match st with | .type _ _ [.multi [_, .array _]] _ => 1 | _ => 0) = some 1 := by
+/-- the former finding K4, repaired: a union of several types that is the item of an array (or a member of another
+    union) is printed WITH its parentheses, and the printed form reads back as the same type (the general statement
+    is `roundtrip`, whose fragment now contains parenthesised unions) -/
+theorem paren_union_printed :
+    (parseLine (strB "type (A|B)[]")).map (fun st => match st with | .type _ _ [t] _ => pr t | _ => []) =
+      some (strB "(A | B)[]") ∧
+    (parseLine (strB "type (A | B)[]")).map (fun st => match st with | .type _ _ [.multi [.array (.multi l)]] _ => l.length | _ => 0) = some 2 ∧
+    (parseLine (strB "type A | (B | C)")).map (fun st => match st with | .type _ _ [t] _ => pr t | _ => []) =
+      some (strB "A | (B | C)") := by
   decide +kernel
-#print axioms roundtrip_fails_paren
+#print axioms paren_union_printed
+
+/-- premises of `roundtrip` satisfiable with a parenthesised union: `(A | B[])[] | table<string, (A | B)>` -/
+example :
+    let m : Ty := .multi [.array (.multi [.normal [65], .array (.normal [66])]),
+                          .table (.multi [.normal [115]]) (.multi [.multi [.normal [65], .normal [66]]])]
+    canonM m = true ∧ pOne (costM m) (toksM m ++ [.at]) = some (m, [.at]) := by
+  refine ⟨by simp [canonM, canonS, canonB, canonL], ?_⟩
+  exact roundtrip _ (by simp [canonM, canonS, canonB, canonL]) _ ⟨by simp, by simp, by simp⟩ _ (Nat.le_refl _)
 
 /-- the former finding K1, repaired: every `[]` suffix is read — `string[][]` is an array of arrays, printed as it was
     written (the general statement is `roundtrip`, whose fragment now has arrays of any depth) -/
